@@ -25,6 +25,7 @@ PROFILE_MODULES = {
     "C03": "dsim.profiles.grid",
     "C11": "dsim.profiles.addressing",
     "C12": "dsim.profiles.merge",
+    "C15": "dsim.profiles.look",
     "C17": "dsim.profiles.damage",
     "C19": "dsim.profiles.names",
 }
